@@ -206,11 +206,30 @@ class ModuleInfo:
     is_package: bool = False
 
 
+# classes the rules anchor in: simple name -> module they are expected in (a class moved elsewhere in the package is found by its unique simple name)
+ANCHOR_CLASSES = {
+    "MessageBrokerT": "repid.connections.abc", "ConsumerT": "repid.connections.abc", "BucketBrokerT": "repid.connections.abc", "_WrappedABC": "repid.connections.abc",
+    "InMemoryMessageBroker": "repid.connections.in_memory.message_broker", "_InMemoryConsumer": "repid.connections.in_memory.consumer",
+    "InMemoryBucketBroker": "repid.connections.in_memory.bucket_broker", "DummyQueue": "repid.connections.in_memory.utils",
+    "RedisMessageBroker": "repid.connections.redis.message_broker", "_RedisConsumer": "repid.connections.redis.consumer", "RedisBucketBroker": "repid.connections.redis.bucket_broker",
+    "RabbitMessageBroker": "repid.connections.rabbitmq.message_broker", "_RabbitConsumer": "repid.connections.rabbitmq.consumer",
+    "MessageDependency": "repid.dependencies.message_dependency", "Depends": "repid.dependencies.depends", "Parameters": "repid.data._parameters",
+    "_Processor": "repid._processor", "_Runner": "repid._runner", "Worker": "repid.worker", "Router": "repid.router", "Job": "repid.job", "Queue": "repid.queue",
+    "Connection": "repid.connection", "BasicConverter": "repid.converter", "PydanticConverter": "repid.converter", "PydanticV1Converter": "repid.converter",
+    "DefaultConverter": "repid.converter", "_middleware_wrapper": "repid.middlewares.wrapper", "Middleware": "repid.middlewares.middleware",
+    "HealthCheckServer": "repid.health_check_server", "_HttpServerProtocol": "repid.health_check_server", "HealthCheckStatus": "repid.health_check_server",
+    "RoutingKey": "repid.data._key", "ArgsBucket": "repid.data._buckets", "ResultBucket": "repid.data._buckets", "_ArgsBucketInMessageId": "repid._utils.args_bucket_in_message_id",
+    "_RepidJSONEncoder": "repid._utils.json_encoder", "_NoAction": "repid._utils.internal_exceptions",
+}
+
+
 class Program:
     def __init__(self, repo: str = REPO) -> None:
         self.repo = repo
         self.modules: dict[str, ModuleInfo] = {}
         self.unrolled: list[str] = []
+        self._reloc: dict[str, str] = {}
+        self.relocated: dict[str, str] = {}
         self.classes: dict[str, ClassInfo] = {}
         self.functions: dict[str, FuncInfo] = {}
         self._subclasses: dict[str, list[str]] = {}
@@ -249,6 +268,25 @@ class Program:
                     self.unrolled.extend(f"{rel}:{ln}" for ln in unrolled)
         for m in self.modules.values():
             self._index_module(m)
+        # anchor classes that were moved to another module of the package are indexed under their canonical qualified name (the rules name them by it)
+        relocs: dict[str, str] = {}
+        for name, cmod in ANCHOR_CLASSES.items():
+            if f"{cmod}.{name}" in self.classes:
+                continue
+            cands = [c for c in self.classes.values() if c.name == name and c.qualname == f"{c.module.name}.{name}"]
+            if len(cands) == 1:
+                relocs[cands[0].qualname] = cmod
+        if relocs:
+            self.relocated = {k: f"{v}.{k.rsplit('.', 1)[1]}" for k, v in relocs.items()}
+            self._reloc = relocs
+            self.classes.clear()
+            self.functions.clear()
+            for m in self.modules.values():
+                m.classes.clear()
+                m.functions.clear()
+                m.assigns.clear()
+                m.imports.clear()
+                self._index_module(m)
         for c in self.classes.values():
             c.bases = [self.resolve_name(c.module, b) or b for b in c.base_exprs]
         for c in self.classes.values():
@@ -293,7 +331,7 @@ class Program:
                         walk_toplevel(h.body)
                     walk_toplevel(st.orelse)
                 elif isinstance(st, ast.ClassDef):
-                    self._index_class(m, st, prefix=m.name)
+                    self._index_class(m, st, prefix=self._reloc.get(f"{m.name}.{st.name}", m.name))
                 elif isinstance(st, (ast.FunctionDef, ast.AsyncFunctionDef)):
                     fi = self._index_function(m, st, None, None, f"{m.name}.{st.name}")
                     # keep the last definition (overloads precede the implementation)
@@ -392,6 +430,9 @@ class Program:
         return None
 
     def _resolve_dotted(self, full: str, _depth: int = 0) -> str | None:
+        for old_q, new_q in self.relocated.items():
+            if full == old_q or full.startswith(old_q + "."):
+                full = new_q + full[len(old_q):]
         if full in self.classes or full in self.functions:
             return full
         # split into module + attr path
